@@ -18,10 +18,10 @@
    the first byte AS AN INTEGER with 2, 3, 4, and every character of an address is an ASCII letter or digit (>= 0x31):
    [C08_dispatch_disjoint] holds without any premise.
 
-   FINDING [C08_b58_payload_length_refuted]: the Base58Check branch never checks the length of the payload; a
-   checksum-valid string with version byte 00/6f/05/c4 and a hash of any length 0..255 other than 20 is mapped to a
-   script that is none of the standard forms.  refuses_others is therefore stated (and proved) for what the code
-   refuses: unknown version bytes (all 252 of them), non-keys, non-addresses. *)
+   REPAIRED DEFECT (found by this model, fix: commit in /repo): the Base58Check branch did not check the length of
+   the payload; a checksum-valid string with version byte 00/6f/05/c4 and a hash of any length 0..255 other than 20
+   was mapped to a non-standard script (b"1DbnRLUXAkXz4" -> 76 a9 05 <5 bytes> 88 ac).  The code now raises
+   ValueError; [C08_refuses_others] is stated at full strength and [C08_scriptpubkey_standard] holds. *)
 From Coq Require Import ZArith List Bool Lia.
 Require Import Bits.Lib.Result Bits.Lib.Bytes Bits.Lib.PyStr.
 Require Import Bits.Spec.Base58 Bits.Spec.Bip173 Bits.Spec.Script Bits.Spec.ScriptTemplates.
@@ -52,12 +52,12 @@ Section C08.
     /\ scriptpubkey sha256 p a b addr = Ok (T.tpl_p2sh h).
   Proof. exact (b58_address_script sha256 sha256_len p a b T.P2SH). Qed.
 
-  (* ... and every ACCEPTED Base58Check string (not only the encoder's output) with a 20-byte payload *)
-  Theorem C08_b58_accepted_20 : forall data v payload,
-    base58check_decode sha256 data = Ok (v :: payload) -> length payload = 20%nat ->
-    (In v T.p2pkh_versions -> scriptpubkey sha256 p a b data = Ok (T.tpl_p2pkh payload))
-    /\ (In v T.p2sh_versions -> scriptpubkey sha256 p a b data = Ok (T.tpl_p2sh payload)).
-  Proof. exact (b58_accepted_20 sha256 sha256_len p a b). Qed.
+  (* ... and every ACCEPTED Base58Check string (not only the encoder's output): known version byte + 20-byte hash *)
+  Theorem C08_b58_accepted : forall data v h,
+    base58check_decode sha256 data = Ok (v :: h) -> length h = 20%nat ->
+    (In v T.p2pkh_versions -> scriptpubkey sha256 p a b data = Ok (T.tpl_p2pkh h))
+    /\ (In v T.p2sh_versions -> scriptpubkey sha256 p a b data = Ok (T.tpl_p2sh h)).
+  Proof. exact (b58_accepted sha256 sha256_len p a b). Qed.
 
   (* ---- witness_vn_script: three networks, version 0..16, every program length allowed for the version ---- *)
   Theorem C08_witness_vn_script : forall (net : T.network) (v : Z) (prog : bytes),
@@ -125,42 +125,37 @@ Section C08.
     end.
   Proof. exact (scriptpubkey_equation sha256 sha256_len p a b). Qed.
 
-  (* ---- refuses_others ---- *)
+  (* ---- refuses_others (full strength): not a key (is_point = False), not a checksum-valid Base58Check string whose
+          payload is one of the four version bytes + a 20-byte hash, not a valid segwit address  ==>  ValueError ---- *)
   Theorem C08_refuses_others : forall data,
     is_point p a b data = Ok false ->
-    (forall v payload, base58check_decode sha256 data = Ok (v :: payload) ->
-       ~ In v T.p2pkh_versions /\ ~ In v T.p2sh_versions) ->         (* not Base58Check, or one of the 252 other bytes *)
+    (forall pl, base58check_decode sha256 data = Ok pl -> ~ b58_address_payload pl) ->
     valid_segwit data = false ->
     scriptpubkey sha256 p a b data = Err ValueE.
   Proof. exact (refuses_others sha256 sha256_len p a b). Qed.
 
-  (* never a script unless: a key / an accepted Base58Check string with a known version / a valid segwit address *)
+  (* in particular: a checksum-valid Base58Check string with one of the 252 other version bytes, no version byte at
+     all, or a payload that is not 20 bytes long *)
+  Theorem C08_b58_non_address_refused : forall data pl,
+    base58check_decode sha256 data = Ok pl -> ~ b58_address_payload pl -> scriptpubkey sha256 p a b data = Err ValueE.
+  Proof. exact (b58_non_address_refused sha256 sha256_len p a b). Qed.
+
+  (* never a script unless: a key / an accepted Base58Check address / a valid segwit address -- and then its template *)
   Theorem C08_scriptpubkey_ok_inv : forall data s, scriptpubkey sha256 p a b data = Ok s ->
     (is_point p a b data = Ok true /\ s = T.tpl_p2pk data /\ (length data = 33%nat \/ length data = 65%nat))
-    \/ (exists v payload, base58check_decode sha256 data = Ok (v :: payload) /\ lenZ payload < 256 /\
-          ((In v T.p2pkh_versions /\ s = x76 :: xa9 :: z2b (lenZ payload) :: payload ++ [x88; xac])
-           \/ (In v T.p2sh_versions /\ s = xa9 :: z2b (lenZ payload) :: payload ++ [x87])))
+    \/ (exists v h, base58check_decode sha256 data = Ok (v :: h) /\ length h = 20%nat /\
+          ((In v T.p2pkh_versions /\ s = T.tpl_p2pkh h) \/ (In v T.p2sh_versions /\ s = T.tpl_p2sh h)))
     \/ (exists hrp v prog, spec_decode data = Some (hrp, v, prog) /\ is_base58check sha256 data = false
           /\ s = T.tpl_witness v prog).
   Proof. exact (scriptpubkey_ok_inv sha256 sha256_len p a b). Qed.
 
-  (* ---- FINDING: wrong payload lengths are NOT refused ---- *)
-  Theorem C08_b58_any_payload_length : forall v payload, lenZ payload < 256 ->
-    (In v T.p2pkh_versions ->
-       scriptpubkey sha256 p a b (base58check sha256 (v :: payload))
-       = Ok (x76 :: xa9 :: z2b (lenZ payload) :: payload ++ [x88; xac]))
-    /\ (In v T.p2sh_versions ->
-       scriptpubkey sha256 p a b (base58check sha256 (v :: payload))
-       = Ok (xa9 :: z2b (lenZ payload) :: payload ++ [x87])).
-  Proof. exact (b58_any_payload_length sha256 sha256_len p a b). Qed.
-
-  Theorem C08_b58_payload_length_refuted :
-    exists data s, is_base58check sha256 data = true /\ scriptpubkey sha256 p a b data = Ok s /\ ~ T.standard_script s.
-  Proof. exact (b58_payload_length_refuted sha256 sha256_len p a b). Qed.
+  (* every script the dispatcher returns is one of the standard forms of Spec/Templates.v *)
+  Theorem C08_scriptpubkey_standard : forall data s, scriptpubkey sha256 p a b data = Ok s -> T.standard_script s.
+  Proof. exact (scriptpubkey_standard sha256 sha256_len p a b). Qed.
 End C08.
 Print Assumptions C08_p2pkh_script.
 Print Assumptions C08_p2sh_script.
-Print Assumptions C08_b58_accepted_20.
+Print Assumptions C08_b58_accepted.
 Print Assumptions C08_witness_vn_script.
 Print Assumptions C08_p2wpkh_script.
 Print Assumptions C08_p2wsh_script.
@@ -172,8 +167,8 @@ Print Assumptions C08_point_first_byte.
 Print Assumptions C08_scriptpubkey_equation.
 Print Assumptions C08_refuses_others.
 Print Assumptions C08_scriptpubkey_ok_inv.
-Print Assumptions C08_b58_any_payload_length.
-Print Assumptions C08_b58_payload_length_refuted.
+Print Assumptions C08_b58_non_address_refused.
+Print Assumptions C08_scriptpubkey_standard.
 
 (* ---- with C14's premise about the curve: "valid SEC1 public key" (Spec/Sec1.v) ---- *)
 Theorem C08_p2pk_script_valid_key : forall (sha256 : bytes -> bytes) p a b, sec1_facts p a b ->
@@ -193,19 +188,18 @@ Print Assumptions C08_p2pk_script_both.
 Theorem C08_refuses_others_total : forall (sha256 : bytes -> bytes), (forall m, length (sha256 m) = 32%nat) ->
   forall p a b, sec1_facts p a b -> forall data,
     (forall x y, ~ Spec.Sec1.valid_encoding p a b data x y) ->                       (* not a valid key *)
-    (forall v payload, base58check_decode sha256 data = Ok (v :: payload) ->
-       ~ In v T.p2pkh_versions /\ ~ In v T.p2sh_versions) ->                          (* no known Base58Check version *)
+    (forall pl, base58check_decode sha256 data = Ok pl -> ~ b58_address_payload pl) -> (* not a Base58Check address *)
     valid_segwit data = false ->                                                      (* not a valid segwit address *)
     scriptpubkey sha256 p a b data = Err ValueE.
 Proof. exact refuses_others_total. Qed.
 Print Assumptions C08_refuses_others_total.
 
-(* total: a script, ValueError, or OverflowError (known version byte with a payload of 256 bytes or more) *)
-Theorem C08_scriptpubkey_errors : forall (sha256 : bytes -> bytes), (forall m, length (sha256 m) = 32%nat) ->
-  forall p a b, sec1_facts p a b -> forall data e,
-    scriptpubkey sha256 p a b data = Err e -> e = ValueE \/ e = OverflowE.
-Proof. exact scriptpubkey_errors. Qed.
-Print Assumptions C08_scriptpubkey_errors.
+(* total: a standard script or ValueError, never another exception *)
+Theorem C08_scriptpubkey_total : forall (sha256 : bytes -> bytes), (forall m, length (sha256 m) = 32%nat) ->
+  forall p a b, sec1_facts p a b -> forall data,
+    (exists s, scriptpubkey sha256 p a b data = Ok s /\ T.standard_script s) \/ scriptpubkey sha256 p a b data = Err ValueE.
+Proof. exact scriptpubkey_total. Qed.
+Print Assumptions C08_scriptpubkey_total.
 
 (* the raw templates are the reference assembly (C13's Spec/Script.v) of the item-list templates *)
 Theorem C08_templates_are_assembly : forall h, length h = 20%nat ->
@@ -294,7 +288,9 @@ Example C08_ex_p2pk_small :
   /\ scriptpubkey ex_sha0 43 0 7 [] = Err ValueE.
 Proof. vm_compute. repeat split; reflexivity. Qed.
 
-(* the finding on a concrete string: b"1DbnRLUXAkXz4" = base58check(00 || 11 11 11 11 11) *)
+(* the repaired defect on a concrete string: b"1DbnRLUXAkXz4" = base58check(00 || 11 11 11 11 11) is refused now
+   (the pinned code returned 76 a9 05 11 11 11 11 11 88 ac) *)
+Definition short_payload : bytes := [x11; x11; x11; x11; x11].
 Definition ex_short_h1 : bytes :=
   [x67; xe9; x63; x9a; x2b; x27; xa9; x8e; x00; xb6; x73; x66; x84; x48; x89; x2a; x92; x70; x34; x93; x3f; xb8; x26;
    x39; xa9; x8f; xec; xd6; x69; x27; x24; x39].
@@ -305,10 +301,23 @@ Definition ex_sha_short (m : bytes) : bytes :=
   if bytes_eqb m (x00 :: short_payload) then ex_short_h1 else if bytes_eqb m ex_short_h1 then ex_short_h2
   else repeat x00 32.
 Example C08_ex_short_payload :
-  scriptpubkey ex_sha_short secp_p secp_a secp_b
-    [x31; x44; x62; x6e; x52; x4c; x55; x58; x41; x6b; x58; x7a; x34]
-  = Ok [x76; xa9; x05; x11; x11; x11; x11; x11; x88; xac].
-Proof. vm_compute. reflexivity. Qed.
+  base58check_decode ex_sha_short [x31; x44; x62; x6e; x52; x4c; x55; x58; x41; x6b; x58; x7a; x34] = Ok (x00 :: short_payload)
+  /\ scriptpubkey ex_sha_short secp_p secp_a secp_b [x31; x44; x62; x6e; x52; x4c; x55; x58; x41; x6b; x58; x7a; x34]
+     = Err ValueE.
+Proof. vm_compute. split; reflexivity. Qed.
+
+(* the premise of refuses_others about Base58Check payloads: a 5-byte hash and the version byte 0x01 are not address
+   payloads; the doctest address's payload is *)
+Example C08_ex_b58_address_payload :
+  ~ b58_address_payload (x00 :: short_payload) /\ ~ b58_address_payload (x01 :: ex_hash) /\ ~ b58_address_payload []
+  /\ b58_address_payload ex_pl.
+Proof.
+  repeat split.
+  - intros (v & h & E & L & _). injection E as <- <-. discriminate L.
+  - intros (v & h & E & _ & [I|I]); injection E as <- <-; cbn in I; intuition discriminate.
+  - intros (v & h & E & _). discriminate E.
+  - exists x00, ex_hash. repeat split. left. cbn. auto.
+Qed.
 
 (* unknown version byte 0x01, an all-Base58 string with a bad checksum, the empty string *)
 Example C08_ex_refused :
